@@ -107,6 +107,7 @@ def Rodas(dae: nDAE,
 
     if haveEvent:
         value, isterminal, direction = events(t, y0)
+        value = np.array(value)  # own copy: the event function may return a buffer that it re-uses
         valueold = value
     stop = 0
     nevent = -1
@@ -230,6 +231,9 @@ def Rodas(dae: nDAE,
                 # -1 -> 0 -> +1 is a sign change (value * valueold would be 0 on both steps and hide it)
                 valueold = np.where(np.asarray(value) == 0, valueold, value)
                 value, isterminal, direction = events(t, ynew)
+                # own copy: if the event function returns a buffer that it re-uses, the evaluations of the bisection would
+                # overwrite the values of the step end (value_save aliased them) and the next step reported a spurious event
+                value = np.array(value)
                 value_save = value
                 ff = np.where(np.sign(value) * np.sign(valueold) < 0)[0]  # the product of the values may underflow
                 if ff.size > 0:
